@@ -10,7 +10,7 @@ import Z80.Proofs.Bits
 namespace Z80
 open Z80.Gen Z80.Spec
 
-attribute [z80spec] exec execOpt execMain execXY execXYCB Spec.executeOne consumed
+attribute [z80spec] exec execOpt execMain execXY execXYtail execXYCB Spec.executeOne consumed
   Spec.fetch Spec.fetchM1 Spec.fetch16 rd8 wr8 rd16 wr16 push16 pop16 locAddr isMem getLocReg setLocReg
   readLoc writeLoc rmwLoc getR setR getXY setXY regU16 regOf get16 set16 condHolds addDisp
   aluApply doAlu pushSite blkElem portIn portOut setAF ccfSt scfSt add16St adc16St sbc16St exxSt
